@@ -117,6 +117,7 @@ def register(reg):
         }},
     )
     _register_parse_accept(reg)
+    _register_accept_init(reg)
 
 
 def _replay_parse_accept(reg, c, inputs):
@@ -159,4 +160,36 @@ def _register_parse_accept(reg):
         raises={}, replay=_replay_parse_accept,
         loops={0: {"types": {"result": "List[Tuple[str, float]]", "item": "str", "q": "float"},
                    "inv": ["forall(0, len(result), lambda i: 0 <= result[i][1] and result[i][1] <= 1)"]}},
+    )
+
+
+def _register_accept_init(reg):
+    """Accept.__init__: the container is built sorted by (specificity, quality), best first -- the precondition of the
+    first-match contracts above (base case of `sorted_items`)"""
+    import ast as _ast
+    Acc = reg.models["Accept"]
+
+    def _sorted(it, a, k, n):
+        # trusted summary of sorted() at this call site: same number of items; if the key is the (specificity, quality)
+        # pair and the order is descending, the result is sorted_items (the key function itself is the trusted
+        # _specificity rank); any other key / order: nothing is known about the order
+        from pyvc.values import VFunc
+        vals = it.need(a[0])
+        r = it.fresh(("list", vals.shape), "sorted")
+        it.ctx.assume(r.length == vals.length, "sorted():same-length")
+        key = k.get("key")
+        rev = k.get("reverse")
+        key_src = _ast.unparse(key.node) if isinstance(key, VFunc) else ""
+        from pyvc.ops import truthy as _t
+        import z3 as _z3
+        if key_src == "lambda x: (self._specificity(x[0]), x[1])" and rev is not None and _z3.is_true(_z3.simplify(_t(rev))):
+            srt = it.sub(True).call(it.reg.spec_names["sorted_items"], [r], {}, n)
+            it.ctx.assume(_t(srt), "sorted(key=(specificity, quality), reverse=True):sorted_items")
+        return r
+    reg.overrides["builtin:sorted"] = _sorted
+    reg.contract(
+        "werkzeug/datastructures/accept.py:Accept.__init__", prop="C17", self_model=Acc,
+        params={"values": "List[Tuple[str, float]]"},
+        ensures=["sorted_items(self.__list__)", "len(self.__list__) == len(values)", "self.provided"],
+        raises={},
     )
